@@ -406,6 +406,8 @@ impl QuorumSamplingStrategy for DecayingAcceptanceSampler {
     fn sample_quorum<R: Rng>(&self, rng: &mut R) -> Vec<ValidatorIndex> {
         // the counts are shared between all callers of this sampler: hold the lock for the
         // whole quorum, so that concurrent callers neither see nor reset each other's counts
+        #[cfg(feature = "verif-hooks")]
+        crate::verif::sched_point("DecayingAcceptanceSampler::sample_quorum");
         let mut sample_count = self.sample_count.lock();
         let samples = (0..self.k)
             .map(|_| self.sample_one_counted(&mut sample_count, rng))
